@@ -24,16 +24,24 @@ Definition C02_full : Prop :=
   forall L lbase lctes steps f, nodupb (cols L) = true -> sp_run L lbase steps f <> None ->
     fr_eqb (m_run gen_cfg L lbase lctes steps f) (sp_run L lbase steps f) = true.
 
-(** what is proved: for chains of joins inside [chain_dom] -- documented spellings; not a right outer join; a condition
-    is given unless the kind is inner/cross; name joins whose key is (once) the first table's column on the left and a column
-    of the right side; no earlier table's same-named column missing from the select list; ON conditions whose references
-    denote their table (independent inputs, or references through aliases) -- the implementation builds literally PySpark's
-    join (same kinds, same ON, same select list), hence equal column lists and equal rows for EVERY content of the tables *)
-Theorem C02_partial : forall L lbase lctes steps,
-  nodupb (cols L) = true -> chain_dom gen_cfg (init_st L lbase lctes) steps = true ->
-  m_run gen_cfg L lbase lctes steps FNone = sp_run L lbase steps FNone.
-Proof. exact (run_chain_ok gen_cfg gen_how_ok gen_none_ok). Qed.
+(** what is proved: for programs inside [prog_dom] -- documented spellings; not a right outer join; a condition is given
+    unless the kind is inner/cross; name joins whose key is (once) the first table's column on the left and a column of the
+    right side; no earlier table's same-named column missing from the select list; references in ON / select / where that
+    denote their table (independent inputs, or references through aliases) and that PySpark accepts; bare names that are
+    unique -- the implementation builds literally PySpark's query (same join kinds, same ON, same WHERE, same select list),
+    hence equal column lists and equal rows for EVERY content of the tables *)
+Theorem C02_partial : forall L lbase lctes steps f,
+  prog_dom gen_cfg L lbase lctes steps f = true ->
+  m_run gen_cfg L lbase lctes steps f = sp_run L lbase steps f.
+Proof. exact (run_ok gen_cfg gen_how_ok gen_none_ok). Qed.
 Print Assumptions C02_partial.
+
+(** a right outer join (as the only join) is PySpark's as long as no column name other than the keys occurs on both sides *)
+Theorem C02_right_join : forall L lbase lctes x,
+  right_dom L lbase lctes x = true ->
+  m_run gen_cfg L lbase lctes [x] FNone = sp_run L lbase [x] FNone.
+Proof. exact (right_join_first_ok gen_cfg gen_how_ok). Qed.
+Print Assumptions C02_right_join.
 
 (** one join: PySpark's columns, and the rows are the select list applied to the SQL join (C02.Join.join) of the two inputs
     under the three-valued ON *)
@@ -96,12 +104,15 @@ Definition ctC (t : nat) := [mkCm 5 6 (Some t)].
 Definition ctD (t : nat) := [mkCm 7 8 (Some t)].
 
 Example C02_domain_nonempty :
-  chain_dom gen_cfg (init_st exA 1 ctA)
+  prog_dom gen_cfg exA 1 ctA
     [mkStep exB 2 (ctB 1) (OnNames ["k"]) "left_outer" false;
      mkStep exD 4 (ctD 2) (OnExprs [UBin Eq (UCol (RDf 1 3 false "v")) (UCol (RDf 2 7 false "k2"))]) "inner" false;
-     mkStep exC 3 (ctC 3) (OnNames ["k"]) "semi" false] = true
-  /\ chain_dom gen_cfg (init_st exA 1 ctA) [mkStep exB 2 (ctB 1) (OnNames ["k"; "v"]) "full" false] = true
-  /\ chain_dom gen_cfg (init_st exA 1 ctA) [mkStep exB 2 (ctB 1) OnNone "cross" false] = true.
+     mkStep exC 3 (ctC 3) (OnNames ["k"]) "semi" false]
+    (FSelect [(UCol (RName "k"), "k"); (UCol (RDf 1 3 false "v"), "bv"); (UBin Add (UCol (RDf 0 1 false "v")) (ULit (VInt 1)), "av1")]) = true
+  /\ prog_dom gen_cfg exA 1 ctA [mkStep exB 2 (ctB 1) (OnNames ["k"; "v"]) "full" false] FNone = true
+  /\ prog_dom gen_cfg exA 1 ctA [mkStep exB 2 (ctB 1) OnNone "cross" false] (FWhere (UBin Gt (UCol (RDf 1 3 false "v")) (ULit (VInt 100)))) = true
+  /\ right_dom exA 1 ctA (mkStep exD 4 (ctD 1) (OnExprs [UBin Eq (UCol (RDf 0 1 false "k")) (UCol (RDf 1 7 false "k2"))]) "right_outer" false) = true
+  /\ right_dom exA 1 ctA (mkStep exC 3 (ctC 1) (OnNames ["k"]) "right" false) = true.
 Proof. vm_compute. repeat split; reflexivity. Qed.
 
 (** * refutations of the full statement on the faithful model (each is replayed on the implementation by the check) *)
